@@ -3,10 +3,11 @@
 (on a scratch copy of the CURRENT /repo tree with the patch applied; /repo itself is never touched) and compares the outcome with the
 outcome recorded in the mutation's meta.json (`expected`).  With --record the outcome is written there instead.
 exit 0: all outcomes as recorded; exit 2: a mutation recorded as detected is no longer detected (the machinery regressed)."""
-import glob, json, os, shutil, subprocess, sys, tempfile
+import glob, json, os, re, shutil, subprocess, sys, tempfile
 
 VERIF = os.path.dirname(os.path.dirname(os.path.abspath(__file__)))
 REPO = os.environ.get('VERIF_REPO', '/repo')
+OBLIGATIONS = {}
 
 
 def run_one(d):
@@ -29,8 +30,12 @@ def run_one(d):
         p = subprocess.run([sys.executable, os.path.join(VERIF, 'tools', 'check.py'), prop, '--tier', tier], env=env, capture_output=True, text=True)
         out = p.stdout
         if p.returncode == 1 and 'VIOLATION property=%s' % prop in out:
-            first = [l for l in out.split('\n') if l.startswith('VIOLATION')][0]
-            return prop, 'detected', first[:300]
+            vs = [l for l in out.split('\n') if l.startswith('VIOLATION')]
+            obs = [re.search(r'obligation=(.*?)(?: @ | site=|$)', l).group(1) for l in vs if 'obligation=' in l]
+            ded = sorted(set(o for o in obs if not o.startswith('bounded::')))
+            bnd = sorted(set(o for o in obs if o.startswith('bounded::')))
+            OBLIGATIONS[os.path.basename(d)] = {'deductive': ded, 'bounded': bnd}
+            return prop, 'detected', vs[0][:300]
         if p.returncode == 0:
             return prop, 'missed', ''
         return prop, 'undecided', ([l for l in out.split('\n') if l.startswith('UNDECIDED')] or [''])[0][:300]
@@ -55,6 +60,7 @@ def main():
         if record and not meta.get('benign'):
             meta['expected'] = res
             meta['check_output_when_recorded'] = detail
+            meta['failed_obligations_when_recorded'] = OBLIGATIONS.get(os.path.basename(d), {})
             json.dump(meta, open(os.path.join(d, 'meta.json'), 'w'), indent=1)
         elif exp == 'detected' and res != 'detected':
             rc = 2
